@@ -8,6 +8,7 @@
 //!   cdrop     drop the cleaner (removes the files)           -> R cdrop ok
 //!   cabandon  cleaner.abandon()                              -> R cabandon ok
 //!   exit      leave immediately WITHOUT dropping anything (the kernel closes the fds)
+//!   path <p>  use another state file from now on                -> R path ok
 //! At end of input everything still held is dropped in order (cleaner, then guard).
 //! The binaries guard / monitor / cleaner run a fixed first command (create / state / clean)
 //! and then (guard, cleaner) read further commands from stdin; `psh` reads everything from stdin.
@@ -68,6 +69,12 @@ impl Sh {
             "cdrop" => { self.cleaner.take(); say("R cdrop ok") }
             "cabandon" => { if let Some(c) = self.cleaner.take() { c.abandon(); } say("R cabandon ok") }
             "exit" => return false,
+            c if c.starts_with("path ") => {
+                // switch to another state file (only meaningful while nothing is held): lets one
+                // process serve many executions of the tie without being respawned
+                self.path = FilePath::new(c[5..].trim().as_bytes()).expect("valid file path");
+                say("R path ok")
+            }
             other => say(&format!("R {} err:unknown-command", other)),
         }
         true
